@@ -49,8 +49,9 @@ class PatchList:
         self.merged.append([master, slave])
 
     def clear(self) -> None:
-        """Removes collected patches but leaves settings intact"""
-        self.patches.clear()
+        """Removes collected sides but leaves patches' types and settings intact"""
+        for patch in self.patches.values():
+            patch.sides = []
 
     @property
     def description(self) -> str:
@@ -58,7 +59,9 @@ class PatchList:
         out = "boundary\n(\n"
 
         for _, patch in self.patches.items():
-            out += patch.description
+            # a patch whose operations were all deleted has no faces left
+            if len(patch.sides) > 0:
+                out += patch.description
 
         out += ");\n\n"
 
